@@ -242,7 +242,7 @@ class AProg(k2.Prog):
                 "    match r { Ok(s) => s, Err(e) => format!(\"panic {}\", panic_text(e)) }\n}\n" % (self.pid, run))
 
 
-def gen_async(rng, pid, kind, **kw):
+def gen_async(rng, pid, kind, no_gates=False, **kw):
     base = k2.gen_scaffold(rng, pid, kind, **kw)
     p = AProg(pid, kind, base.name)
     p.branches, p.handler = base.branches, base.handler
@@ -252,7 +252,8 @@ def gen_async(rng, pid, kind, **kw):
     yields = []
     for br in p.branches:
         for op in br["ops"]:
-            if op.mode in ("init", "andThen", "then", "orElse") and not (op.mode == "init" and op.block) and rng.chance(1, 2):
+            if (not no_gates and op.mode in ("init", "andThen", "then", "orElse") and not (op.mode == "init" and op.block)
+                    and rng.chance(1, 2)):
                 gid += 1
                 if kind[5] == "0" and rng.chance(1, 3):
                     # a self-waking pending point (woken during its own poll); opened by nobody
@@ -262,7 +263,7 @@ def gen_async(rng, pid, kind, **kw):
                     op.agate = 500 + gid
                     gates.append(op.agate)
     # the future an async `then` / `and_then` handler returns may wait for a gate of its own
-    if p.handler and p.handler["kind"] in ("then", "and_then") and rng.chance(1, 2):
+    if not no_gates and p.handler and p.handler["kind"] in ("then", "and_then") and rng.chance(1, 2):
         gid += 1
         p.handler["gate"] = 500 + gid
         gates.append(p.handler["gate"])
@@ -281,6 +282,7 @@ def gen_async(rng, pid, kind, **kw):
     sched += [[] for _ in yields]
     p.schedule = sched
     p.yields = yields
+    p.no_gates = no_gates
     return p
 
 
@@ -338,7 +340,8 @@ def judge(p, rust_line, spec_line):
     s_res, s_main, s_forks = k2.lean_flat(spec_line, p)
     i_res = k2.normalize_panic(res, p.base)
     ends = re.findall(r"ce:(\d+):(\d+):(\S+)", spec_line)
-    if i_res != s_res and s_res.startswith("ok F(") and p.is_try() and any(v.startswith("F(") for (b, k, v) in ends):
+    if (i_res != s_res and s_res.startswith("ok F(") and p.is_try() and any(v.startswith("F(") for (b, k, v) in ends)
+            and not getattr(p, "no_gates", False)):
         # a branch fails: earliest failing step of the reference; any failing chain of that step may win the race
         # (a failure returned by an `and_then` handler after all branches succeeded is not a race: plain comparison)
         fail_steps = [int(k) for (b, k, v) in ends if v.startswith("F(")]
@@ -347,7 +350,10 @@ def judge(p, rust_line, spec_line):
         if i_res not in allowed:
             problems.append("result %r is not the failure of a branch failing in the earliest failing step (allowed %r)" % (i_res, sorted(allowed)))
     elif i_res != s_res:
-        problems.append("result: implementation %r, reference semantics (sync counterpart) %r" % (i_res, s_res))
+        problems.append("result: implementation %r, reference semantics (sync counterpart) %r%s" % (i_res, s_res,
+                        " (no pending point anywhere: every chain is ready when first polled, so the plain async try macro returns "
+                        "the failure of the first failing branch of the step, and its task-spawning counterpart must return the same)"
+                        if getattr(p, "no_gates", False) else ""))
     # barrier + no later step
     caps, cbs = p.cap_positions()
     last = -1
@@ -616,14 +622,6 @@ def body_panics(ctx, kinds=("a1t0s0", "a1t1s0", "a1t0s1", "a1t1s1"), n=None):
         return
     got = dict(l.split("\t", 1) for l in out.splitlines() if "\t" in l)
     ctx.evals += len(progs)
-    # programs with self-waking pending points: the model's schedule is the executor's plus "opened after the poll that met it"
-    if det_y:
-        apoll_y = k1.run_driver(["APOLL\t%s\t%s\t%s\t%s\t%s" % (p.pid, p.kind, r.structure, p.world_gated(),
-                                 "|".join(",".join(str(g) for g in b) for b in effective_schedule(p, got.get(p.pid, "MISSING\t"))))
-                                 for p, r in det_y])
-        for (p, r), o in zip(det_y, apoll_y):
-            predicted[p.pid] = o.split("\t", 1)[1] if "\t" in o else o
-        ctx.out.coverage["programs_with_self_waking_points"] = ctx.out.coverage.get("programs_with_self_waking_points", 0) + len(det_y)
     for p in progs:
         rl = got.get(p.pid, "MISSING\t")
         res = rl.split("\t")[0]
